@@ -80,3 +80,24 @@ new2="""            xjr.append(xr)
 assert old2 in s
 open(p,'w').write(s.replace(old2,new2,1))
 PY
+run "make_functions: outputs computed in one expression" "C14" <<'PY'
+import sys
+p=sys.argv[1]+'/omega/symbolic/functions.py'; s=open(p).read()
+old="    outputs = set(vrs)\n    outputs &= supp\n"
+assert old in s
+open(p,'w').write(s.replace(old,"    outputs = set(vrs).intersection(supp)\n",1))
+PY
+run "support: set comprehension instead of map" "C07 C11" <<'PY'
+import sys
+p=sys.argv[1]+'/omega/symbolic/fol.py'; s=open(p).read()
+old="        return set(map(bit2int.__getitem__, supp))\n"
+assert old in s
+open(p,'w').write(s.replace(old,"        return {bit2int[bit] for bit in supp}\n",1))
+PY
+run "make_streett_transducer: counter name and maximum in one dict literal" "C02" <<'PY'
+import sys
+p=sys.argv[1]+'/omega/games/gr1.py'; s=open(p).read()
+old="    vrs = {c: (0, c_max)}\n    aut.declare_variables(**vrs)\n"
+assert old in s
+open(p,'w').write(s.replace(old,"    aut.declare_variables(**{c: (0, c_max)})\n",1))
+PY
